@@ -41,6 +41,7 @@ type memConn struct {
 	heldUp      [][]byte
 	heldDown    [][]byte
 	upCount     int
+	downCount   int
 }
 
 func (c *memConn) Read(p []byte) (int, error) {
@@ -268,7 +269,8 @@ func (n *Net) sendUp(c *memConn, frame []byte) {
 
 func (n *Net) sendDown(c *memConn, frame []byte) {
 	s := n.s
-	lat := s.baseLatency(fmt.Sprintf("zkdown|%d|%d", c.id, s.evSeq))
+	c.downCount++
+	lat := s.baseLatency(fmt.Sprintf("zkdown|%d|%d", c.id, c.downCount))
 	at := s.now() + lat
 	if at <= c.lastDown {
 		at = c.lastDown + time.Nanosecond
